@@ -1110,6 +1110,17 @@ pub fn token_pairs(rng: &mut Rng) -> String {
     s
 }
 
+/// `pairs_enum` family (thorough): every ordered triple of the spacing alphabet, with the gap kinds rotating, in a
+/// fixed context; deterministic in `i`
+pub fn token_pairs_enum(i: usize) -> String {
+    let n = PAIR_ALPHABET.len();
+    let gaps = ["", " ", "   ", "\n", "\n      "];
+    let (a, b, c) = (i % n, (i / n) % n, (i / (n * n)) % n);
+    let g1 = gaps[(i / (n * n * n)) % gaps.len()];
+    let g2 = gaps[(i / (n * n * n) / gaps.len() + i) % gaps.len()];
+    format!("x := {}{}{}{}{};", PAIR_ALPHABET[a], g1, PAIR_ALPHABET[b], g2, PAIR_ALPHABET[c])
+}
+
 pub fn token_soup(rng: &mut Rng, max_len: usize) -> String {
     let n = rng.range(0, max_len);
     let mut s = String::new();
